@@ -384,7 +384,9 @@ Theorem sri_pre_sort_explicit f l f' s1 dbid di ii s2 ibid s3 rs have s4 rs' :
   distinct_paths (map req_path l) = true -> Coherent f -> BlockIdsOk (fsyn f) -> RequireSettable f ->
   sri_steps f l f' s1 dbid di ii s2 ibid s3 rs have s4 rs' ->
   Coherent (with_require (with_syn f s4) rs') /\ BlockIdsOk s4 /\
-  BlockIdsOk s2 /\ has_req_block (stmts s2) dbid /\ has_req_block (stmts s2) ibid.
+  BlockIdsOk s2 /\ has_req_block (stmts s2) dbid /\ has_req_block (stmts s2) ibid /\
+  (Coherent (with_require (with_syn f s3) rs) /\ has_req_block (stmts s3) dbid /\ has_req_block (stmts s3) ibid
+   /\ NoDup (block_ids (stmts s3))).
 Proof.
   intros Hd Hc Hbi Hset [E1 [E2 [E3 [E4 _]]]]. apply distinct_paths_spec in Hd. destruct Hd as [Hnd Hne].
   destruct (need_of_requests l Hnd Hne) as [_ [Hnd' Hne']]. fold (sri_need l) in Hnd', Hne'.
@@ -447,7 +449,9 @@ Proof.
   (* the new requirements *)
   destruct (sri_add_new_S dbid ibid have (post_require f) need (pre_require f) s3 rs s4 rs' Hc3) as [Hc4 [Hb4 Hn4]];
     [rewrite Hb3; exact (bi_nodup _ Hbi2) | exact Hdb3 | exact Hib3 | exact Hne' | exact E4 |].
-  split; [|split; [|split; [exact Hbi2 | split; assumption]]].
+  split; [|split; [|split; [exact Hbi2 | split; [exact Hdb2 | split; [exact Hib2|]]]]].
+  3: { split; [apply coherent_S; rewrite entries_require; exact Hc3 | split; [exact Hdb3 | split; [exact Hib3|]]].
+       rewrite Hb3. exact (bi_nodup _ Hbi2). }
   - apply coherent_S. rewrite entries_require. exact Hc4.
   - destruct Hbi2 as [B1 B2]. split.
     + rewrite Hb4, Hb3. exact B1.
